@@ -261,9 +261,28 @@ pub fn stress_strings(payloads: &[&str]) -> Vec<String> {
                 }
             }
         }
-        for k in [127usize, 128, 129, 255, 256, 257, 1023, 1024, 4095, 4096, 4097] {
-            v.push(format!("{}{}", "a".repeat(k), p));
-            v.push(format!("{}\u{e9}{}z", "a".repeat(k), p));
+        // dense around the usual block sizes (a pair that straddles a 128/256/512/1024/2048/4096-byte cut)
+        for (lo, hi) in [(118usize, 136usize), (246, 264), (502, 520), (1008, 1030), (2036, 2056), (4084, 4100)] {
+            for k in lo..=hi {
+                v.push(format!("{}{}", "a".repeat(k), p));
+                v.push(format!("{}\u{e9}{}z", "a".repeat(k), p));
+                v.push(format!("e\u{301}e\u{301}e\u{301}{}{}z", "a".repeat(k), p));
+            }
+        }
+        // exact repetition counts (8-bit / 16-bit counters)
+        for n in [255usize, 256, 257, 511, 512, 513] {
+            v.push(format!("x{}y", p.repeat(n)));
+        }
+    }
+    // many DISTINCT valid characters in one string (fixed-size sets / memo tables), alone and around each payload
+    for base in [0x4e00u32, 0x3041, 0x430, 0xac00, 0x561, 0x10428, 0xe0, 0x5d0, 0x905] {
+        for n in [15usize, 16, 17, 31, 32, 33, 63, 64, 65, 66, 127, 128, 129, 255, 256, 257, 300] {
+            let run: String = (0..n as u32).filter_map(|i| char::from_u32(base + i)).collect();
+            v.push(run.clone());
+            v.push(format!("a{run}z"));
+            if let Some(p) = payloads.first() {
+                v.push(format!("{run}{p}"));
+            }
         }
     }
     for mark in ['\u{301}', '\u{300}', '\u{323}', '\u{5bf}', '\u{64e}', '\u{3099}', '\u{94d}', '\u{1e2ae}'] {
